@@ -52,6 +52,7 @@ def boot():
     want = os.path.realpath(REPO_SRC)
     if got != want:
         raise RuntimeError(f"pydrex imported from {got}, expected {want}")
+    sys.excepthook = sys.__excepthook__  # pydrex.logger installs one that logs (silenced below)
     logging.getLogger("pydrex").setLevel(logging.CRITICAL + 1)
     for h in logging.getLogger("pydrex").handlers:
         h.setLevel(logging.CRITICAL + 1)
